@@ -1377,6 +1377,28 @@ impl SymSut {
     }
 }
 
+/// Compact rendering of a symbolic dump (payloads abbreviated).
+pub fn fmt_dump(d: &SymDump) -> String {
+    let sid = |s: &Sid| if *s == UNKNOWN_SID { "#?".to_string() } else if *s == NIL { "nil".to_string() } else { format!("#{s}") };
+    let cl: Vec<String> = d
+        .clients
+        .iter()
+        .map(|(c, x)| {
+            format!(
+                "{}: latest {}{}",
+                (b'A' + *c) as char,
+                sid(&x.latest),
+                match &x.snapshot {
+                    Some(s) => format!(", snapshot at {} ({} since, {} days, {})", sid(&s.version), s.since, s.age_days, show_bytes(&s.data)),
+                    None => String::new(),
+                }
+            )
+        })
+        .collect();
+    let vs: Vec<String> = d.versions.iter().map(|(c, v, p, data)| format!("{}:{}<-{} {}", (b'A' + *c) as char, sid(v), sid(p), show_bytes(data))).collect();
+    format!("clients [{}] versions [{}]", cl.join("; "), vs.join(", "))
+}
+
 /// Compare an implementation's dump with the model's. Absent vs. existing-but-empty clients
 /// are distinguished.
 pub fn dump_matches(model: &Model, d: &SymDump, anomalies: &[String]) -> Result<(), String> {
